@@ -25,7 +25,7 @@ func c03Profile() Profile {
 	p := defaultProfile()
 	p.MissingRefs = true
 	p.GlobalCM = true
-	p.GlobalKeys = []annChoice{{"drain-support", []string{"true", "false"}}}
+	p.GlobalKeys = []annChoice{{"drain-support", []string{"true", "false"}}, {"strict-host", []string{"true", "true", "false"}}}
 	p.Ann = []annChoice{
 		{"balance-algorithm", []string{"roundrobin", "leastconn"}},
 		{"ssl-redirect", []string{"true", "false"}},
